@@ -79,7 +79,7 @@ func c08Curve[P curves.Point[P, F, S], F algebra.FiniteFieldElement[F], S algebr
 	sf := curve.ScalarField()
 	rounds := 1
 	if c.Thorough() {
-		rounds = 3
+		rounds = 2
 	}
 	rs := func() S { return scalarFromBig(sf, r.BigBelow(fieldOrder(sf))) }
 	// quick tier: the 381-bit curve only runs Schnorr, its OR composition and batch Schnorr
